@@ -91,8 +91,11 @@ Section Walk.
   Definition visit_dir (prefix : str) (rel : list str) (children : list node)
     : bool * list action :=
     let files := filter (fun f => negb (excl (rel ++ [fst f]) false)) (file_entries children) in
+    (* with auto-exclusion, a directory without such a file is still processed when the walk
+       is recursive: its index.rst is what links the pages of its sub-directories *)
     let processed :=
-      negb (ws_auto_exclude st) || existsb (fun f => lc_cmake_suffix (fst f)) files in
+      negb (ws_auto_exclude st) || existsb (fun f => lc_cmake_suffix (fst f)) files
+      || ws_recursive st in
     if processed then
       let subdirs := sort_by (fun x => x) (map node_name (filter (keep_dir rel) children)) in
       let sfiles := sort_by fst files in
